@@ -132,6 +132,14 @@ func (e *FnEnc) define(prefix, sort, term string) string {
 	return n
 }
 
+// declareEq introduces a declared constant equal to term (usable inside quantifier patterns, unlike define-fun
+// names, which the solvers expand).
+func (e *FnEnc) declareEq(prefix, sort, term string) string {
+	n := e.declare(prefix, sort)
+	e.emit(fmt.Sprintf("(assert (= %s %s))", n, term))
+	return n
+}
+
 func (e *FnEnc) assume(fact string) {
 	if fact == "true" || fact == "" {
 		return
